@@ -14,4 +14,13 @@ for d in $(ls seeded | grep -v RESULTS); do
   summ=$(python3 -c "import json;print(json.load(open('seeded/$d/meta.json')).get('summary','')[:160].replace('|','/').replace('\n',' '))" 2>/dev/null)
   echo "| $d | $p | $rc | $kind | $summ |" >> $out
   echo "$d $p exit=$rc $kind"
+  if [ "$rc" != "1" ]; then
+    for q in $(python3 -c "import json;print(' '.join(json.load(open('seeded/$d/meta.json')).get('also_try',[])))" 2>/dev/null); do
+      res2=$(tools/try_seed.sh $d $q 2>&1)
+      rc2=$(echo "$res2" | grep -E "^== " | head -1 | sed 's/.*exit //')
+      kind2=$(echo "$res2" | grep -E "^  " | head -1 | sed 's/^  //' | cut -d: -f1)
+      echo "| $d | $q (other property) | $rc2 | $kind2 | |" >> $out
+      echo "$d $q exit=$rc2 $kind2"
+    done
+  fi
 done
